@@ -78,6 +78,14 @@ Theorem C14_dispatch_sound : forall secure c a,
 Proof. exact dispatch_sound. Qed.
 Print Assumptions C14_dispatch_sound.
 
+(* a response that does not close belongs to a dispatched request, and it leaves both tables without the socket: the next
+   message on the open connection is parsed afresh (every answer the component makes itself closes) *)
+Theorem C14_open_means_clean : forall secure c a st v hd,
+  In (EWrite st v false hd) (effs_of (read_conn secure c a)) ->
+  In EDispatch (effs_of (read_conn secure c a)) /\ conn_of (read_conn secure c a) = empty_conn.
+Proof. exact open_means_clean. Qed.
+Print Assumptions C14_open_means_clean.
+
 (* histories over any number of connections *)
 Theorem C14_released : forall secure h s t, fst (run secure t (h ++ [Disc s])) s = empty_conn.
 Proof. exact released. Qed.
@@ -150,7 +158,7 @@ Print Assumptions C14_burst_released.
 (* ---- non-vacuity: concrete answers reaching each outcome ---- *)
 Definition A0 : answers :=
   {| a_ssl := Ret false; a_exec := Raise; a_errreq := Raise; a_req := Raise; a_clen := Raise;
-     a_path := Raise; a_excreq := Ret tt; a_app := Ret 200 |}.
+     a_path := Raise; a_excreq := Ret tt; a_app := Ret (200, false) |}.
 Definition with_exec (a : answers) (x : res pflags) : answers :=
   {| a_ssl := a_ssl a; a_exec := x; a_errreq := a_errreq a; a_req := a_req a; a_clen := a_clen a;
      a_path := a_path a; a_excreq := a_excreq a; a_app := a_app a |}.
@@ -158,7 +166,7 @@ Definition R11 : reqinfo := {| rver := (1, 1); is_head := false; has_host := tru
 Definition R20 : reqinfo := {| rver := (2, 0); is_head := true; has_host := true; host_ctl := false; te_chunked := false; keepalive := true |}.
 Definition Agood (ri : reqinfo) (n : Z) : answers :=
   {| a_ssl := Ret false; a_exec := Ret {| hc := true; perrno := None; mc := true |}; a_errreq := Raise;
-     a_req := Ret ri; a_clen := Ret n; a_path := Ret PCanon; a_excreq := Ret tt; a_app := Ret 200 |}.
+     a_req := Ret ri; a_clen := Ret n; a_path := Ret PCanon; a_excreq := Ret tt; a_app := Ret (200, false) |}.
 
 (* unicode_escape of the request line raises: 500, close; the parser stays until the disconnect *)
 Example C14_ex_raise :
